@@ -148,6 +148,10 @@ impl<'a> Gen<'a> {
             },
             _ => {},
         }
+        // PATH_MAX: no absolute path of the world may come near 4096 bytes (a long name repeated
+        // down a deep chain would), or the world could not even be built
+        tree.retain(|n| n.path.len() <= 3000);
+        dirs.retain(|d| d.len() <= 3000);
         if links != LinkMode::None {
             let nl = match self.rng.below(4) {
                 0 => 0,
